@@ -15,93 +15,102 @@ def slotWrites : Op → Option (List Nat)
   | .blockedSq _ | .emptySq _ => some []
   | _ => none
 
-/-- `s'` agrees with `s` on every slot variable outside `ws`, on all cells, connections and trackables -/
-def SFrameL (ws : List Nat) (s s' : St) : Prop :=
-  s'.T = s.T ∧ s'.C = s.C ∧ s'.K = s.K ∧ s'.impls = s.impls ∧ s'.next = s.next ∧
-  ∀ k, k ∉ ws → aget s'.S k = aget s.S k
+/-- operations on slot variables whose functor spec (if any) has no side effect of its own -/
+def slotOpPlain : Op → Bool
+  | .mkS _ _ f | .setS _ f => plainSpec f
+  | _ => true
 
-theorem SFrameL.refl (ws : List Nat) (s : St) : SFrameL ws s s := ⟨rfl, rfl, rfl, rfl, rfl, fun _ _ => rfl⟩
+/-- `s'` agrees with `s` on every slot variable outside `ws`, on all cells and connections, and — when `p`
+    holds — on all trackables, scoped connections, handles and the allocator -/
+def SFrameL (p : Bool) (ws : List Nat) (s s' : St) : Prop :=
+  s'.C = s.C ∧ s'.impls = s.impls ∧ (∀ k, k ∉ ws → aget s'.S k = aget s.S k) ∧
+  (p = true → s'.T = s.T ∧ s'.K = s.K ∧ s'.G = s.G ∧ s'.next = s.next)
+
+theorem SFrameL.refl (p : Bool) (ws : List Nat) (s : St) : SFrameL p ws s s :=
+  ⟨rfl, rfl, fun _ _ => rfl, fun _ => ⟨rfl, rfl, rfl, rfl⟩⟩
 
 theorem ne_of_notMem {k j : Nat} {ws : List Nat} (hk : k ∉ ws) (hj : j ∈ ws) : k ≠ j :=
   fun e => hk (by rw [e]; exact hj)
 
 theorem sframe_aset (s : St) (j : Nat) (x : SlotVar) (ws : List Nat) (hj : j ∈ ws) :
-    SFrameL ws s { s with S := aset s.S j x } :=
-  ⟨rfl, rfl, rfl, rfl, rfl, fun _ hk => aget_aset_other _ _ _ _ (ne_of_notMem hk hj)⟩
+    SFrameL true ws s { s with S := aset s.S j x } :=
+  ⟨rfl, rfl, fun _ hk => aget_aset_other _ _ _ _ (ne_of_notMem hk hj), fun _ => ⟨rfl, rfl, rfl, rfl⟩⟩
 
 theorem sframe_adel (s : St) (j : Nat) (ws : List Nat) (hj : j ∈ ws) :
-    SFrameL ws s { s with S := adel s.S j } :=
-  ⟨rfl, rfl, rfl, rfl, rfl, fun _ hk => aget_adel_other _ _ _ (ne_of_notMem hk hj)⟩
+    SFrameL true ws s { s with S := adel s.S j } :=
+  ⟨rfl, rfl, fun _ hk => aget_adel_other _ _ _ (ne_of_notMem hk hj), fun _ => ⟨rfl, rfl, rfl, rfl⟩⟩
 
 theorem sframe_aset2 (s : St) (j i : Nat) (x y : SlotVar) (ws : List Nat) (hj : j ∈ ws) (hi : i ∈ ws) :
-    SFrameL ws s { s with S := aset (aset s.S i y) j x } :=
-  ⟨rfl, rfl, rfl, rfl, rfl, fun k hk => by
+    SFrameL true ws s { s with S := aset (aset s.S i y) j x } :=
+  ⟨rfl, rfl, fun k hk => by
     show aget (aset (aset s.S i y) j x) k = aget s.S k
-    rw [aget_aset_other _ _ _ _ (ne_of_notMem hk hj), aget_aset_other _ _ _ _ (ne_of_notMem hk hi)]⟩
+    rw [aget_aset_other _ _ _ _ (ne_of_notMem hk hj), aget_aset_other _ _ _ _ (ne_of_notMem hk hi)],
+   fun _ => ⟨rfl, rfl, rfl, rfl⟩⟩
 
 theorem sframe_mkFun (s s0 : St) (b : Bool) (spec : FSpec) (fn : Fun) (hf : mkFun s b spec = .ok (fn, s0))
     (j : Nat) (x : SlotVar) (ws : List Nat) (hj : j ∈ ws) :
-    SFrameL ws s { s0 with S := aset s0.S j x } := by
-  obtain ⟨⟨hT, hS, hC, hK, hI, hN, _⟩, _⟩ := mkFun_ok s s0 b spec fn hf
-  refine ⟨hT, hC, hK, hI, hN, fun k hk => ?_⟩
-  show aget (aset s0.S j x) k = aget s.S k
-  rw [aget_aset_other _ _ _ _ (ne_of_notMem hk hj), hS]
+    SFrameL (plainSpec spec) ws s { s0 with S := aset s0.S j x } := by
+  obtain ⟨⟨hS, hC, hI, _⟩, hp, _⟩ := mkFun_ok s s0 b spec fn hf
+  refine ⟨hC, hI, fun k hk => ?_, fun h => ?_⟩
+  · show aget (aset s0.S j x) k = aget s.S k
+    rw [aget_aset_other _ _ _ _ (ne_of_notMem hk hj), hS]
+  · rw [hp h]; exact ⟨rfl, rfl, rfl, rfl⟩
 
 theorem asgS_sframe (s s' : St) (r : String) (j i : Nat) (h : stepSimple s (.asgS j i) = some (s', r)) :
-    SFrameL [j] s s' := by
+    SFrameL true [j] s s' := by
   simp only [stepSimple] at h
   repeat' split at h
   all_goals (simp only [Option.some.injEq, Prod.mk.injEq] at h; obtain ⟨rfl, _⟩ := h)
-  all_goals first | exact SFrameL.refl _ _ | exact sframe_aset _ _ _ _ (by simp)
+  all_goals first | exact SFrameL.refl _ _ _ | exact sframe_aset _ _ _ _ (by simp)
 
 theorem masgS_sframe (s s' : St) (r : String) (j i : Nat) (h : stepSimple s (.masgS j i) = some (s', r)) :
-    SFrameL [j, i] s s' := by
+    SFrameL true [j, i] s s' := by
   simp only [stepSimple] at h
   repeat' split at h
   all_goals (simp only [Option.some.injEq, Prod.mk.injEq] at h; obtain ⟨rfl, _⟩ := h)
-  all_goals first | exact SFrameL.refl _ _ | exact sframe_aset _ _ _ _ (by simp) | exact sframe_aset2 _ _ _ _ _ _ (by simp) (by simp)
+  all_goals first | exact SFrameL.refl _ _ _ | exact sframe_aset _ _ _ _ (by simp) | exact sframe_aset2 _ _ _ _ _ _ (by simp) (by simp)
 
 theorem cpS_sframe (s s' : St) (r : String) (j i : Nat) (h : stepSimple s (.cpS j i) = some (s', r)) :
-    SFrameL [j] s s' := by
+    SFrameL true [j] s s' := by
   simp only [stepSimple] at h
   repeat' split at h
   all_goals (simp only [Option.some.injEq, Prod.mk.injEq] at h; obtain ⟨rfl, _⟩ := h)
-  all_goals first | exact SFrameL.refl _ _ | exact sframe_aset _ _ _ _ (by simp)
+  all_goals first | exact SFrameL.refl _ _ _ | exact sframe_aset _ _ _ _ (by simp)
 
 theorem mvS_sframe (s s' : St) (r : String) (j i : Nat) (h : stepSimple s (.mvS j i) = some (s', r)) :
-    SFrameL [j, i] s s' := by
+    SFrameL true [j, i] s s' := by
   simp only [stepSimple] at h
   repeat' split at h
   all_goals (simp only [Option.some.injEq, Prod.mk.injEq] at h; obtain ⟨rfl, _⟩ := h)
-  all_goals first | exact SFrameL.refl _ _ | exact sframe_aset2 _ _ _ _ _ _ (by simp) (by simp)
+  all_goals first | exact SFrameL.refl _ _ _ | exact sframe_aset2 _ _ _ _ _ _ (by simp) (by simp)
 
 theorem mkS0_sframe (s s' : St) (r : String) (i : Nat) (ty : String) (h : stepSimple s (.mkS0 i ty) = some (s', r)) :
-    SFrameL [i] s s' := by
+    SFrameL true [i] s s' := by
   simp only [stepSimple] at h
   repeat' split at h
   all_goals (simp only [Option.some.injEq, Prod.mk.injEq] at h; obtain ⟨rfl, _⟩ := h)
-  all_goals first | exact SFrameL.refl _ _ | exact sframe_aset _ _ _ _ (by simp)
+  all_goals first | exact SFrameL.refl _ _ _ | exact sframe_aset _ _ _ _ (by simp)
 
 theorem delS_sframe (s s' : St) (r : String) (i : Nat) (h : stepSimple s (.delS i) = some (s', r)) :
-    SFrameL [i] s s' := by
+    SFrameL true [i] s s' := by
   simp only [stepSimple] at h
   repeat' split at h
   all_goals (simp only [Option.some.injEq, Prod.mk.injEq] at h; obtain ⟨rfl, _⟩ := h)
-  all_goals first | exact SFrameL.refl _ _ | exact sframe_adel _ _ _ (by simp)
+  all_goals first | exact SFrameL.refl _ _ _ | exact sframe_adel _ _ _ (by simp)
 
 theorem discS_sframe (s s' : St) (r : String) (i : Nat) (h : stepSimple s (.discS i) = some (s', r)) :
-    SFrameL [i] s s' := by
+    SFrameL true [i] s s' := by
   simp only [stepSimple] at h
   repeat' split at h
   all_goals (simp only [Option.some.injEq, Prod.mk.injEq] at h; obtain ⟨rfl, _⟩ := h)
-  all_goals first | exact SFrameL.refl _ _ | exact sframe_aset _ _ _ _ (by simp)
+  all_goals first | exact SFrameL.refl _ _ _ | exact sframe_aset _ _ _ _ (by simp)
 
 theorem blockS_sframe (s s' : St) (r : String) (i : Nat) (b : Bool) (h : stepSimple s (.blockS i b) = some (s', r)) :
-    SFrameL [i] s s' := by
+    SFrameL true [i] s s' := by
   simp only [stepSimple] at h
   repeat' split at h
   all_goals (simp only [Option.some.injEq, Prod.mk.injEq] at h; obtain ⟨rfl, _⟩ := h)
-  all_goals first | exact SFrameL.refl _ _ | exact sframe_aset _ _ _ _ (by simp)
+  all_goals first | exact SFrameL.refl _ _ _ | exact sframe_aset _ _ _ _ (by simp)
 
 theorem querySq_same (s s' : St) (r : String) (i : Nat)
     (h : stepSimple s (.blockedSq i) = some (s', r) ∨ stepSimple s (.emptySq i) = some (s', r)) : s' = s := by
@@ -111,27 +120,27 @@ theorem querySq_same (s s' : St) (r : String) (i : Nat)
     all_goals (simp only [Option.some.injEq, Prod.mk.injEq] at h; obtain ⟨rfl, _⟩ := h; rfl)
 
 theorem setS_sframe (s s' : St) (r : String) (i : Nat) (spec : FSpec) (h : stepSimple s (.setS i spec) = some (s', r)) :
-    SFrameL [i] s s' := by
+    SFrameL (plainSpec spec) [i] s s' := by
   simp only [stepSimple] at h
   split at h
-  · simp only [Option.some.injEq, Prod.mk.injEq] at h; obtain ⟨rfl, _⟩ := h; exact SFrameL.refl _ _
+  · simp only [Option.some.injEq, Prod.mk.injEq] at h; obtain ⟨rfl, _⟩ := h; exact SFrameL.refl _ _ _
   · split at h
-    · simp only [Option.some.injEq, Prod.mk.injEq] at h; obtain ⟨rfl, _⟩ := h; exact SFrameL.refl _ _
+    · simp only [Option.some.injEq, Prod.mk.injEq] at h; obtain ⟨rfl, _⟩ := h; exact SFrameL.refl _ _ _
     · split at h
-      · simp only [Option.some.injEq, Prod.mk.injEq] at h; obtain ⟨rfl, _⟩ := h; exact SFrameL.refl _ _
+      · simp only [Option.some.injEq, Prod.mk.injEq] at h; obtain ⟨rfl, _⟩ := h; exact SFrameL.refl _ _ _
       · rename_i hf
         simp only [Option.some.injEq, Prod.mk.injEq] at h; obtain ⟨rfl, _⟩ := h
         exact sframe_mkFun _ _ _ _ _ hf _ _ _ (by simp)
 
 theorem mkS_sframe (s s' : St) (r : String) (i : Nat) (ty : String) (spec : FSpec)
-    (h : stepSimple s (.mkS i ty spec) = some (s', r)) : SFrameL [i] s s' := by
+    (h : stepSimple s (.mkS i ty spec) = some (s', r)) : SFrameL (plainSpec spec) [i] s s' := by
   simp only [stepSimple] at h
   split at h
-  · simp only [Option.some.injEq, Prod.mk.injEq] at h; obtain ⟨rfl, _⟩ := h; exact SFrameL.refl _ _
+  · simp only [Option.some.injEq, Prod.mk.injEq] at h; obtain ⟨rfl, _⟩ := h; exact SFrameL.refl _ _ _
   · split at h
-    · simp only [Option.some.injEq, Prod.mk.injEq] at h; obtain ⟨rfl, _⟩ := h; exact SFrameL.refl _ _
+    · simp only [Option.some.injEq, Prod.mk.injEq] at h; obtain ⟨rfl, _⟩ := h; exact SFrameL.refl _ _ _
     · split at h
-      · simp only [Option.some.injEq, Prod.mk.injEq] at h; obtain ⟨rfl, _⟩ := h; exact SFrameL.refl _ _
+      · simp only [Option.some.injEq, Prod.mk.injEq] at h; obtain ⟨rfl, _⟩ := h; exact SFrameL.refl _ _ _
       · rename_i hf
         simp only [Option.some.injEq, Prod.mk.injEq] at h; obtain ⟨rfl, _⟩ := h
         exact sframe_mkFun _ _ _ _ _ hf _ _ _ (by simp)
@@ -139,7 +148,7 @@ theorem mkS_sframe (s s' : St) (r : String) (i : Nat) (ty : String) (spec : FSpe
 /-- every operation on slot variables leaves every slot variable it does not name, every cell,
     connection and trackable untouched — in all of its branches -/
 theorem slotOp_sframe (s s' : St) (r : String) (op : Op) (ws : List Nat)
-    (hw : slotWrites op = some ws) (h : stepSimple s op = some (s', r)) : SFrameL ws s s' := by
+    (hw : slotWrites op = some ws) (h : stepSimple s op = some (s', r)) : SFrameL (slotOpPlain op) ws s s' := by
   cases op <;> simp only [slotWrites, Option.some.injEq] at hw <;> try cases hw
   · exact mkS_sframe _ _ _ _ _ _ h
   · exact mkS0_sframe _ _ _ _ _ h
@@ -151,8 +160,8 @@ theorem slotOp_sframe (s s' : St) (r : String) (op : Op) (ws : List Nat)
   · exact delS_sframe _ _ _ _ h
   · exact discS_sframe _ _ _ _ h
   · exact blockS_sframe _ _ _ _ _ h
-  · rw [querySq_same _ _ _ _ (.inl h)]; exact SFrameL.refl _ _
-  · rw [querySq_same _ _ _ _ (.inr h)]; exact SFrameL.refl _ _
+  · rw [querySq_same _ _ _ _ (.inl h)]; exact SFrameL.refl _ _ _
+  · rw [querySq_same _ _ _ _ (.inr h)]; exact SFrameL.refl _ _ _
 
 /-! ## connecting a slot: `ensureImpl`, `insertCell`, `conn`, `connfn` -/
 
